@@ -253,6 +253,8 @@ class AbstractTAP(AbstractScriptedAgent):
                 self.logger.info(f"{self.config.ref} has opted to re-attack!")
                 self.current_kill_chain_stage = BaseKillChain.NOT_STARTED
                 self.next_kill_chain_stage = selected_kill_chain_class.initial_stage(selected_kill_chain_class)
+                # a chain that failed part-way through a stage starts the first stage from its beginning again
+                self.current_stage_progress = KillChainStageProgress.PENDING
             else:
                 self.logger.info(f"{self.config.ref} has opted to forgo any further attacks.")
                 self.actions_concluded = True  # Guard Clause Bool
